@@ -11,7 +11,7 @@ O: exact transition matrices of the real DataPointSampler, PruneRegraphSampler, 
 """
 import json
 
-from .. import env, tlc, absstate
+from .. import env, tlc, absstate, movetrace, recorder, gridoracle
 from ..evidence import Check
 from . import c01
 
@@ -28,7 +28,7 @@ def model_runs(ck, thorough, seed):
 
     def add(label, c, expect):
         jobs.append(dict(job="c04_%d" % len(jobs), module="Moves", workers=1, timeout=3000,
-                         cfg=tlc.cfg_text(constants=c, invariants=["Stationary", "ClosedInv", "RowsSumToOne"])))
+                         cfg=tlc.cfg_text(constants=c, invariants=["Stationary", "ClosedInv", "SameRelationInv", "RowsSumToOne"])))
         meta.append((label, expect))
 
     n = 4 if thorough else 3
@@ -133,6 +133,32 @@ def sigfn_for(which):
     return f
 
 
+def trace_moves_part(ck, seed, thorough):
+    """The move RELATIONS of Moves.tla (MoveRel.tla) bound beyond the sizes the exact kernels reach: real chains on 6-8
+    (clustered) data points with flat likelihoods and a large concentration value (many clones, trees change often);
+    every recorded sampler step must be a step of MoveRel (TraceMoves.tla).  Diagnostic channel: MODEL-DRIFT."""
+    recorded = []
+    combos = [("semi-adapted", 0.2), ("bootstrap", 0), ("fully-adapted", 0.2), ("semi-adapted", 0), ("bootstrap", 0.3), ("fully-adapted", 0)]
+    if thorough:
+        combos = combos * 3
+    for ci, (prop, outl) in enumerate(combos):
+        n = 6 + ci % 3
+        tab = gridoracle.int_tables(n, 2, 7, seed + ci, lo=4, hi=6)
+        data = gridoracle.data_from_tables(tab, outlier_prob=outl, sizes=[1 + (i % 3) for i in range(n)])
+        rec = recorder.ChainRecorder(inner_moves=True)
+        res, err = recorder.run_chain(data, seed * 100 + ci, rec=rec, proposal=prop, outlier_prob=outl, subtree_update_prob=0.5, num_iters=(120 if thorough else 40),
+                                      burnin=2, num_particles=5, concentration_value=20.0, concentration_update=(ci % 2 == 0))
+        label = "%s|outl=%s|n=%d|#%d" % (prop, outl, n, ci)
+        if err:
+            ck.violation("C04|chain|exception:%s" % err.split(":")[0], "chain aborted: %s [%s]" % (err, label), {"config": label})
+            continue
+        recorded.append((label, outl > 0, rec.events))
+    movetrace.check_chains(ck, "C04", "c04_moves", recorded)
+    tm = ck.extra.get("trace_moves", {})
+    if min(tm.get("dp_move_changed", 0), tm.get("prg_changed", 0), tm.get("subtree_changed", 0)) < 5:
+        ck.note("few tree-changing moves among the recorded steps (%s): the trace validation of the move relations is thin in this run" % tm)
+
+
 def run(corrupt=None):
     ck = Check("C04")
     env.use_repo()
@@ -155,6 +181,7 @@ def run(corrupt=None):
         cfgs.append(dict(base, n=3, wiring="lib", outl=False, dist="real", alpha=2.5))
         c01.run_configs(ck, cfgs, table, which=which, prop="C04", corrupt=corrupt, sigfn=sigfn_for(which))
     mechanism_rows(ck, seed, table)
+    trace_moves_part(ck, seed, thorough)
     # sweep composition on one tree object (data-point scan, prune-regraft, relabel, prune-regraft), real density
     cfgs = [dict(base, n=3, wiring="run", outl=False, dist="real", alpha=0.6)]
     if thorough:
